@@ -9,6 +9,8 @@ CONSTANTS
   N = 4
   Starts = {1}
   Modes = {"route"}
+  Units = {1, 2, 5, 10}
+  Dtypes = {"f64", "i64", "i32", "f32", "fortran", "sliced", "isliced"}
   MaxMut = 2
   DEV_SetterKeepsDistance = FALSE
   DEV_NoLoopGuard = FALSE
